@@ -10,6 +10,7 @@ import json
 import os
 import subprocess
 import sys
+import tempfile
 
 VERIF = os.path.dirname(os.path.dirname(os.path.abspath(__file__)))
 sys.path.insert(0, VERIF)
@@ -17,11 +18,13 @@ from hugrsim.meta import PROPS  # noqa: E402
 
 
 def digests(prop, seed, scale, workers=16, xor=0):
+    # scratch output directories: the evidence files under /verif are the ones of the last full check, not of a self-test
+    scratch = os.path.join(tempfile.gettempdir(), "determinism-out")
     env = dict(os.environ, VERIF_DIGESTS="1", VERIF_SCALE=str(scale), VERIF_SEED=str(seed), VERIF_WORKERS=str(workers),
-               VERIF_HASHSEED_XOR=str(xor))
+               VERIF_HASHSEED_XOR=str(xor), VERIF_SCRATCH=scratch)
     p = subprocess.run([os.path.join(VERIF, "check"), prop], env=env, capture_output=True, text=True, timeout=900)
     out = {}
-    for f in sorted(glob.glob(os.path.join(VERIF, "out", prop, "batch-*.json.digests"))):
+    for f in sorted(glob.glob(os.path.join(scratch, "out", prop, "batch-*.json.digests"))):
         out[os.path.basename(f)] = json.load(open(f))
     return p.returncode, out
 
